@@ -23,7 +23,8 @@ MIN_NONVACUOUS = {'quick': {'opt.rows_U': 170, 'opt.rows_L': 136, 'opt.rows_S': 
                   'thorough': {'opt.rows_U': 2000, 'opt.rows_L': 1500, 'opt.rows_S': 1000, 'opt.rows_N': 2000, 'opt.booleans': 1000,
                                'opt.no_better_point': 4000, 'opt.failure_means_infeasible': 500}}
 LP_SOLVERS = [None, None, 'CLARABEL', 'SCIPY', 'SCIP']
-MIP_SOLVERS = [None, None, 'SCIP', 'SCIPY']
+MIP_SOLVERS = [None, None, None, 'SCIP', 'SCIP', 'SCIPY', 'SCIPY', 'CLARABEL']     # CLARABEL cannot solve MIPs: cvxpy raises SolverError (no claim); a reported failure would be a claim
+MIP_SOLVERS_REPEATED = [None, None, 'SCIP']      # (SCIPY on MIPs: known finding F23, kept out of the repeated-call mode)
 
 
 def synthetic(rng, infeasible=False):
@@ -37,10 +38,16 @@ def synthetic(rng, infeasible=False):
         isb[rng.permutation(n)[:k]] = True
         for j in np.where(isb)[0]:
             l[j], u[j] = [(0., 1.), (-0.3, 1.6), (0., 1.), (-0.3, 1.), (0., 2.5), (1., 1.), (0., 0.)][int(rng.integers(7))]
+    frac_fixed = False
+    if mip and rng.random() < 0.1:
+        # one boolean whose bounds contain neither 0 nor 1 (e.g. pinned to a relaxed solution's 0.7): the problem has no feasible point
+        j = int(np.where(isb)[0][0])
+        l[j], u[j] = [(0.7, 0.7), (0.2, 0.6), (0.5, 0.5)][int(rng.integers(3))]
+        frac_fixed = True
     x0 = np.round(rng.uniform(l, u), 2)
     for j in np.where(isb)[0]:
         cand = [v for v in (0., 1.) if l[j] <= v <= u[j]]
-        x0[j] = cand[int(rng.integers(len(cand)))]
+        x0[j] = cand[int(rng.integers(len(cand)))] if cand else l[j]
     A = sp.random(m, n, density=0.5, random_state=int(rng.integers(1 << 30)), data_rvs=lambda k: np.round(rng.uniform(-3, 3, k), 1)).tolil()
     for i in range(m):
         if A[i].nnz == 0:
@@ -70,7 +77,7 @@ def synthetic(rng, infeasible=False):
         mp = mp.drop(columns=['bool'])
     op = OptimProblem(c=c, l=l.astype(float), u=u.astype(float), A=A, b=b, cType=ct, mapping=mp)
     desc = {'c': c.tolist(), 'l': l.tolist(), 'u': u.tolist(), 'A': np.asarray(A.todense()).round(3).tolist(), 'b': np.round(b, 4).tolist(),
-            'cType': ct, 'bool': np.where(isb)[0].tolist(), 'map_index': [int(i) for i in mp.index]}
+            'cType': ct, 'bool': np.where(isb)[0].tolist(), 'map_index': [int(i) for i in mp.index], 'boolean_fixed_to_fraction': frac_fixed}
     return op, desc, mip
 
 
@@ -121,7 +128,7 @@ def run_case(rng, tier, case):
                     calls = []
                     for _ in range(int(rng.integers(2, 4))):
                         kw = {}
-                        sv = gen.pick(rng, MIP_SOLVERS[:3] if mip else LP_SOLVERS)      # (SCIPY on MIPs: known finding F23, kept out of the repeated-call mode)
+                        sv = gen.pick(rng, MIP_SOLVERS_REPEATED if mip else LP_SOLVERS)
                         if sv: kw['solver'] = sv
                         if mip and rng.random() < 0.4: kw['make_soft_problem'] = True
                         calls.append(kw)
@@ -159,7 +166,9 @@ def run_case(rng, tier, case):
             case.key = env.spec_key(gen.strip_private(spec)); case.sample = dict(gen.abbreviate(spec), solver=solver, split=split); case.spec = spec
             r = flow.run_portfolio(spec, split=split, solver=solver, do_extract=False, rec=rec)
             if not r.ok:
-                if r.stage == 'optimize':
+                if r.stage == 'optimize' and mip and solver == 'CLARABEL' and type(r.error).__name__ == 'SolverError':
+                    case.reject('LP-only solver on a MIP: ' + flow.describe_error(r))          # cvxpy refuses: no result, no claim
+                elif r.stage == 'optimize':
                     # the problem was assembled; optimize must return a solution or a status, not raise
                     case.check('opt.optimize_does_not_raise', False, solver=solver, split=split, error=flow.describe_error(r))
                 else:
